@@ -54,6 +54,10 @@ type Case struct {
 	// its own: what one parsed script leaves behind must not leak into the runs of another.
 	NoiseProg *gen.Program `json:"noise_program,omitempty"`
 	Scribble  bool         `json:"scribble,omitempty"` // the caller writes into every result it receives
+	// RawText, when set, replaces the printed program: an edited text whose parse reports
+	// errors. Such a ParseResult is still something a caller can hold and run; whatever Run does
+	// with it (an error, a panic) it must do again for the same inputs.
+	RawText string `json:"raw_text,omitempty"`
 }
 
 type Result struct {
@@ -132,6 +136,9 @@ func (c Case) plan(t TaskSpec) store.Plan {
 // no scheduler, sorted map order.
 func (c Case) solo(text string, t TaskSpec, flags map[string]struct{}) exec.Outcome {
 	p := exec.Parse(text)
+	if c.RawText != "" && text == c.RawText {
+		p = exec.ParseLoose(text)
+	}
 	pl := c.plan(t)
 	pl.Shared = false
 	st := store.New(c.inputsFor(t), pl)
@@ -147,8 +154,14 @@ func Execute(c Case, keepTrace bool, ch chooser) (res Result) {
 	tr := core.NewTrace(keepTrace)
 	res = Result{Trace: tr, Probes: map[string]int{}, Sites: map[string]int{}}
 	text := c.Prog.Text()
+	var p exec.Parsed
+	if c.RawText != "" {
+		text = c.RawText
+		p = exec.ParseLoose(text)
+	} else {
+		p = exec.Parse(text)
+	}
 	tr.Add("script %s", text)
-	p := exec.Parse(text)
 	if !p.InDomain {
 		res.Why = p.Why
 		return res
@@ -207,11 +220,13 @@ func Execute(c Case, keepTrace bool, ch chooser) (res Result) {
 			res.Violation = viol("flags", "nil-vs-empty-flags-differ", "with {}: "+oNone.Canon()+" ; with nil: "+oNil.Canon())
 			return res
 		}
-		if !c.UsesOD && oWith.Canon() != oNone.Canon() {
+		if c.RawText != "" {
+			// an edited text: whether it still calls overdraft() is not known from the AST
+		} else if !c.UsesOD && oWith.Canon() != oNone.Canon() {
 			res.Violation = viol("flags", "flag-changes-ungated-behaviour", "script does not call overdraft(); with the flag: "+oWith.Canon()+" ; without: "+oNone.Canon())
 			return res
 		}
-		if c.UsesOD && oNone.ErrType != "ExperimentalFeature" && oNone.ErrType != "MissingVariableErr" && oNone.Canon() == oWith.Canon() && oWith.Err == "" {
+		if c.RawText == "" && c.UsesOD && oNone.ErrType != "ExperimentalFeature" && oNone.ErrType != "MissingVariableErr" && oNone.Canon() == oWith.Canon() && oWith.Err == "" {
 			res.Violation = viol("flags", "gated-feature-available-without-flag", "script calls overdraft(); without the flag it still succeeds: "+oNone.Canon())
 			return res
 		}
@@ -274,6 +289,9 @@ func Execute(c Case, keepTrace bool, ch chooser) (res Result) {
 				if c.Scribble {
 					o.Scribble()
 				}
+				// what any caller may do between runs: read the parse result's accessors
+				_ = pr.GetParsingErrors()
+				_ = pr.GetSource()
 				slots[i].out = append(slots[i].out, o)
 				if between {
 					// history: another script, declaring what this one lacks, runs in between
@@ -529,6 +547,23 @@ func genCase(r *rand.Rand) (Case, chooser) {
 		if _, ok := c12.ApplyDefect(r, &pi, false); ok && canonVars(pi.In.Vars) == before {
 			c.Prog = pi.Prog
 		}
+	}
+	// a share of cases runs an EDITED text (parse errors included)
+	if r.IntN(25) == 0 {
+		t := c.Prog.Text()
+		for n := 1 + r.IntN(3); n > 0; n-- {
+			t = gen.EditText(r, t)
+		}
+		c.RawText = t
+		c.NoiseProg = nil
+		var keep []TaskSpec
+		for _, ts := range c.Tasks {
+			if !ts.Noise {
+				keep = append(keep, ts)
+			}
+		}
+		c.Tasks = keep
+		k = len(c.Tasks)
 	}
 	// a share of cases pads values with whitespace (the caller's map must come back untouched,
 	// whatever the interpreter makes of such values)
